@@ -413,6 +413,123 @@ def mc_storage(run):
     run.step("mc:Storage", distinct=r.get("distinct"))
 
 
+GEN_SYNC_CFG = """SPECIFICATION GSpec
+CONSTANTS
+  Peers = {%s}
+  MaxChanges = %d
+  MaxFP = %d
+  ROToggles = %d
+  Drops = %d
+  Depth = %d
+INVARIANTS %s NoStuck TypeOK
+%sCONSTRAINT ChanBound
+CHECK_DEADLOCK FALSE
+%s"""
+
+
+def gen_sync(run, variants, nontrivial_pred):
+    """spec -> impl for the sync protocol: behaviours of Sync.tla (exhaustive transition coverage or random
+    simulation) replayed on real documents and sync::State values, Bloom false positives forced by the hook"""
+    total = 0
+    for vi, (peers, maxc, maxfp, tog, drops, depth, num) in enumerate(variants):
+        exh = num == 0
+        cfg = GEN_SYNC_CFG % (peers, maxc, maxfp, tog, drops, depth, "EmitAll" if exh else "Emit",
+                              "VIEW TransitionView\n" if exh else "", "PROPERTY ReadOnlyNeverApplies\n" if tog and exh else "")
+        behs, r = tlc_behaviours("Gen_Sync.tla", cfg, os.path.join(run.work, "gensync"), {}, num, depth + 4,
+                                 run.seed + vi, exhaustive=exh, workers=6 if exh else 1, timeout=1800)
+        run.add_states(r)
+        bp = os.path.join(run.work, f"beh-sync-{vi}.ndjson")
+        with open(bp, "w") as f:
+            f.write("\n".join(behs) + "\n")
+        outp = os.path.join(run.work, f"rep-sync-{vi}.json")
+        replay_bin(["sync", bp, outp])
+        res = json.load(open(outp))
+        total += res["behaviours"] - res.get("inconclusive", 0)
+        run.cov["evaluations"] += res["steps"]
+        if res.get("inconclusive"):
+            run.assumptions.append(f"{res['inconclusive']} behaviours skipped: a natural Bloom false positive occurred")
+        nt = 0
+        for b in behs:
+            if nontrivial_pred(b):
+                nt += 1
+        run._nontrivial.update(("sync", vi, k) for k in range(nt))
+        if behs:
+            bj = json.loads(behs[len(behs) // 2])
+            run.sample({"gen": "Sync.tla", "steps": [{k: v for k, v in st.items() if k not in ("st", "doc")} for st in bj[:8]]})
+        if exh:
+            run.cov["exhaustive"] = True
+        for mm in res["mismatches"][:3]:
+            obj = {"variant": [peers, maxc, maxfp, tog, drops], "behaviour": mm["line"], "step": mm["step"],
+                   "fields": mm["fields"], "expected": mm["expected"], "got": mm["got"]}
+            run.violation(obj, f"replay of TLC sync behaviour: step {mm['step']} ({mm['expected'].get('act')} "
+                               f"p={mm['expected'].get('p')} q={mm['expected'].get('q')}) differs from Sync.tla in {mm['fields']}",
+                          {"checks": ["replay:" + f for f in mm["fields"]], "event": mm["expected"]})
+    run.cov["traces_validated_against_impl"] += total
+    run.step("gen_sync", behaviours=total)
+
+
+def mc_sync(run, peers, maxc, maxfp, tog, drops, liveness=False, timeout=1800):
+    cfg = ("SPECIFICATION %s\nCONSTANTS\n  Peers = {%s}\n  MaxChanges = %d\n  MaxFP = %d\n  ROToggles = %d\n  Drops = %d\n"
+           "INVARIANTS NoStuck TypeOK\nCONSTRAINT ChanBound\nCHECK_DEADLOCK FALSE\n%s") % (
+        "FairSpec" if liveness else "Spec", peers, maxc, maxfp, tog, drops,
+        "PROPERTY EventuallyConverged\n" if liveness else "PROPERTY ReadOnlyNeverApplies\n")
+    r = tlc("Sync.tla", cfg, os.path.join(run.work, "mc-sync"), workers=6, timeout=timeout, deque=False)
+    if "No error has been found" not in r["out"]:
+        raise ToolError("design-level model checking of Sync.tla failed (specification-level counterexample):\n" + r["out"][-3000:])
+    run.add_states(r)
+    run.step("mc:Sync", peers=peers, changes=maxc, fp=maxfp, toggles=tog, drops=drops, liveness=liveness,
+             distinct=r.get("distinct"), generated=r.get("generated"))
+
+
+def has_fp(b):
+    return '"fp":[]' not in b[:40]
+
+
+def has_toggle(b):
+    return '"act":"toggle"' in b
+
+
+def has_reconnect(b):
+    return '"act":"reconnect"' in b
+
+
+def c20(run):
+    run.cov["rule"] = ("Sync.tla (line-by-line transcription of generate/receive) explored exhaustively for 2 peers: every "
+                       "interleaving of edit/generate/receive with a persistent Bloom false positive chosen by TLC; invariant "
+                       "NoStuck (quiet and nothing in flight => same changes); every (state, transition) replayed on real "
+                       "documents and sync::State with the false positive forced through the hook, messages and states "
+                       "compared field by field; non-trivial = behaviour with a false positive")
+    if run.tier == "quick":
+        mc_sync(run, "1, 2", 3, 1, 0, 0)
+        gen_sync(run, [("1, 2", 2, 1, 0, 0, 40, 0), ("1, 2", 4, 1, 0, 0, 60, 60)], has_fp)
+    else:
+        mc_sync(run, "1, 2", 3, 1, 0, 0)
+        mc_sync(run, "1, 2", 2, 1, 0, 0, liveness=True)
+        gen_sync(run, [("1, 2", 3, 1, 0, 0, 50, 0), ("1, 2", 5, 2, 0, 0, 80, 400)], has_fp)
+
+
+def c22(run):
+    run.cov["rule"] = ("as C20 with set_read_only toggles at any point (either side, messages in flight, concurrent edits): "
+                       "action property ReadOnlyNeverApplies, NoStuck once no link is read-only (the skipped changes arrive); "
+                       "exhaustive transition-coverage replay; non-trivial = behaviour with a toggle")
+    if run.tier == "quick":
+        gen_sync(run, [("1, 2", 1, 0, 2, 0, 50, 0), ("1, 2", 2, 0, 1, 0, 40, 0), ("1, 2", 3, 1, 2, 0, 60, 30)], has_toggle)
+    else:
+        mc_sync(run, "1, 2", 2, 1, 2, 0)
+        gen_sync(run, [("1, 2", 1, 0, 3, 0, 60, 0), ("1, 2", 2, 1, 1, 0, 40, 0), ("1, 2", 2, 0, 2, 0, 50, 0), ("1, 2", 4, 1, 3, 0, 80, 300)], has_toggle)
+
+
+def c21(run):
+    run.cov["rule"] = ("Sync.tla with 3 peers, link drops that lose in-flight messages in both directions, and reconnection "
+                       "with a fresh sync::State or with decode(encode(state)); NoStuck; replay on real code; "
+                       "non-trivial = behaviour with a drop/reconnect")
+    if run.tier == "quick":
+        gen_sync(run, [("1, 2", 2, 0, 0, 1, 40, 0), ("1, 2, 3", 3, 1, 0, 2, 70, 40)], has_reconnect)
+    else:
+        mc_sync(run, "1, 2, 3", 2, 0, 0, 1, timeout=2400)
+        gen_sync(run, [("1, 2", 2, 1, 0, 1, 40, 0), ("1, 2", 3, 0, 0, 2, 60, 0), ("1, 2, 3", 4, 1, 0, 3, 100, 300)], has_reconnect)
+
+
 def replay(run, path):
     """re-validate a recorded violating scenario"""
     from . import tlc_trace
@@ -433,6 +550,9 @@ REG = {
     "C03": ("model_checking", c03),
     "C07": ("model_checking", c07),
     "C11": ("model_checking", c11),
+    "C20": ("model_checking", c20),
+    "C21": ("model_checking", c21),
+    "C22": ("model_checking", c22),
     "C12": ("model_checking", c12),
     "C13": ("fault_enumeration", c13),
     "C14": ("fault_enumeration", c14),
